@@ -24,6 +24,10 @@ HOSTILE = [
     "(define + -)", "(define (car x) 'a-car)", "(set! cons list)", "(define list vector)", "(define tick-free 1)",
     "(import (no such library))", "(import (only (scheme base) car))", "(car '())", "(undefined-procedure 1)", "(vector-ref (vector) 0)", "(/ 1 0)",
     "(define (map f l) 'a-map)", "(define apply 5)", "(my-mac 1 2)", "(cond (#t 1))", "(let ((q 1)) q)",
+    # parameters and local variables named like the bundled keywords, in accepted and in REJECTED forms (no body, a definition after an expression, a malformed body)
+    "(lambda (when) )", "(define (zk cond) (define zx 1))", "((lambda (unless) unless (define zy 2)) 1)", "(lambda (case . let) (if))", "(define (zk and or) (lambda (begin)))",
+    "(let ((unless 5) (when 6)) (list unless when))", "((lambda (cond . case) (list cond case)) 1 2 3)", "(define (zk2 let*) let*)", "(zk2 4)", "(let* ((begin 1) (let begin)) )",
+    "(define (zk3 or) (or 1 2) (define-syntax or (syntax-rules () ((or a) a))))", "(lambda (let) (let ((a 1)) a) (define q 1))", "(let ((cond 1)) (define-syntax when (syntax-rules () ((when a) a))) cond)",
     # a vector that contains itself is displayed, the cycle is broken and the vector dropped
     "((lambda () (define c (vector 1 2)) (vector-set! c 0 c) (display c) (vector-set! c 0 0) 'gone))",
     "((lambda () (define a (vector 0)) (define b (vector a a)) (vector-set! a 0 b) (display (list a b)) (vector-set! a 0 1) 'gone))",
